@@ -64,6 +64,10 @@ def universe():
         ("W->Z", {W: Z}),
         ("W->as_vector(f,g)", {W: ufl.as_vector([f, g])}),
         ("W->grad(h)", {W: ufl.grad(h)}),
+        ("f->0", {f: 0}),
+        ("W->zero(2)", {W: ufl.zero(2)}),
+        ("f->0,g->h", {f: ufl.zero(), g: h}),
+        ("c->0.0", {c: 0.0}),
         ("h->g(unused)", {h: g}),
         ("f->W(shape)", {f: W}),
         ("W->f(shape)", {W: f}),
